@@ -68,19 +68,21 @@ def shrink_json_at(scn, path, keep_list_length=False):
             yield c
 
 
-def minimise(scn, cls, prop, runner, budget=400):
+def minimise(scn, cls, prop, runner, budget=400, max_seconds=420):
     """Greedy: accept any candidate that still shows violation class `cls`.
 
     runner(scn) -> list of violation classes observed (deterministic).
     Returns (minimised scenario, executions used).
     """
+    import time
+    t0 = time.time()
     used = 0
     improved = True
     cur = scn
-    while improved and used < budget:
+    while improved and used < budget and time.time() - t0 < max_seconds:
         improved = False
         for cand in prop.shrink(cur):
-            if used >= budget:
+            if used >= budget or time.time() - t0 >= max_seconds:
                 break
             used += 1
             try:
